@@ -26,7 +26,7 @@ pub fn def() -> CheckDef {
 }
 
 fn info(tier: Tier) -> CheckInfo {
-    CheckInfo {
+    let mut ci = CheckInfo {
         id: "C18",
         level: "model_checking",
         rule: format!(
@@ -35,7 +35,9 @@ fn info(tier: Tier) -> CheckInfo {
             if tier.is_quick() { "" } else { ", each also with one lost datagram among the votes / the self-ping (deviation bound 1)" }
         ),
         assumptions: vec!["in the tie case either address may win (map iteration order): both outcomes are accepted".into()],
-    }
+    };
+    ci.rule.push_str(" Added: the public Info accessors must equal the node's state; every adaptive / public_ip timeline again with the application calling bootstrapped() at minutes 10 and 24.");
+    ci
 }
 
 const T: Id20 = [0x18; 20];
